@@ -768,7 +768,9 @@ fn mutate_restored(dest: &Path, exps: &[Exp], bounds_of: &BTreeMap<Vec<u8>, Vec<
                         }
                         drop(f);
                         // an unchanged mtime hides the damage from a restore that does not verify existing files
-                        let keep_mtime = (verify_existing || !any) && rng.chance(1, 2);
+                        // (for a name of a shared inode "nothing overwritten here" does not mean the inode is undamaged: another
+                        // name may have damaged it already, and setting the old mtime again would hide that)
+                        let keep_mtime = (verify_existing || (!any && !e.hl)) && rng.chance(1, 2);
                         set_mtime(&p, if keep_mtime { old_mtime } else { new_mtime })?;
                     }
                     4 if !c.is_empty() => {
